@@ -121,7 +121,7 @@ def unique_after_expansion(W) -> bool:
 @st.composite
 def workflows(draw, max_components=6, max_stages=3, names="simple", methods=("ref",), allow_paths=False,
               allow_repeat=True, allow_shutdown=True, replicate_via_vars=False, max_n=3, abs_spelling=True,
-              allow_multi_ref=False):
+              allow_multi_ref=False, allow_ref_in_var=False):
     ncomp = draw(st.integers(1, max_components))
     nstages = draw(st.integers(1, min(max_stages, ncomp)))
     # non-decreasing stage indices covering 0..nstages-1
@@ -213,6 +213,11 @@ def workflows(draw, max_components=6, max_stages=3, names="simple", methods=("re
                     d["nrep_s"] = N + draw(st.integers(1, 2))
                 if d:
                     c["decoy_vars"] = d
+    if allow_ref_in_var:
+        # the text of a reference may live in a component variable that the command line interpolates
+        for c in comps:
+            if c["refs"] and draw(st.integers(0, 4)) == 0:
+                c["ref_in_var"] = draw(st.integers(0, len(c["refs"]) - 1))
     W = {"n": N, "components": comps}
     # sound domain: names stay unique after replication suffixes are appended
     if not unique_after_expansion(W):
@@ -240,7 +245,11 @@ def render(W, executable="echo") -> dict:
     stage_vars = {}
     for i, c in enumerate(W["components"]):
         refs = [ref_string(W, i, r) for r in c["refs"]]
-        args = " ".join(list(c["lits"]) + refs)
+        arg_refs = list(refs)
+        via = c.get("ref_in_var")
+        if via is not None:
+            arg_refs[via] = "%(rv)s"
+        args = " ".join(list(c["lits"]) + arg_refs)
         d = {"name": c["name"], "stage": c["stage"], "command": {"executable": executable, "arguments": args},
              "references": refs}
         wa = {}
@@ -269,6 +278,8 @@ def render(W, executable="echo") -> dict:
         if wa:
             d["workflowAttributes"] = wa
         variables.update(c.get("decoy_vars") or {})
+        if via is not None:
+            variables["rv"] = refs[via]
         if variables:
             d["variables"] = variables
         comps.append(d)
